@@ -26,6 +26,7 @@ TIME_PINS = {
 PINS = {
     # qual -> AST digest of the helper as it was when the abstraction was written (py2lean.pin_of)
     'time.py::TimeInterval._default_to_zulu': '38a377e882923ea8',
+    'utils/functions.py::default_to_zulu': 'e4c433c062136134',
 }
 
 
@@ -153,7 +154,59 @@ def multi_unit():
                 ctx_params=[('rc', 'μ → κ → Bool'), ('rs', 'μ → σ → Bool'), ('ri', 'μ → σ → Bool')], abstract=abstract)
 
 
-UNITS = {'SrcTime': time_unit, 'SrcBase': base_unit, 'SrcMulti': multi_unit}
+# ----------------------------------------------------------------------------------------------------------
+# geostructures/collections.py :: CollectionBase — filters and `intersects`   (C18)
+#
+# a collection is the record `GV.Coll` (tag + member list); `type(self)(xs)` is the model's `rewrap` (a Track constructor
+# sorts and may raise); what a member answers about the query shape is abstract: `xi x` = `x.intersects(shape)`,
+# `xc x` = `x.contains(shape)`, `qc x` = `shape.contains(x)`, `qdt` = `shape.dt`.
+
+def coll_unit():
+    src = py2lean.Source(_repo('collections.py'))
+    C = 'CollectionBase'
+    insts = [
+        Inst(f'{C}.filter_by_dt', 'filterByDtInst', [('self', 'GV.Coll'), ('dt', 'Dt')], 'Except GV.Coll'),
+        Inst(f'{C}.filter_by_dt', 'filterByDtIval', [('self', 'GV.Coll'), ('dt', 'TI')], 'Except GV.Coll'),
+        Inst(f'{C}.filter_by_intersection', 'filterByIntersection', [('self', 'GV.Coll'), ('shape', 'Query')], 'Except GV.Coll'),
+        Inst(f'{C}.filter_contained_by', 'filterContainedBy', [('self', 'GV.Coll'), ('shape', 'Query')], 'Except GV.Coll'),
+        Inst(f'{C}.filter_contains', 'filterContains', [('self', 'GV.Coll'), ('shape', 'Query')], 'Except GV.Coll'),
+        Inst(f'{C}.intersects', 'intersects', [('self', 'GV.Coll'), ('shape', 'Query')], 'Except Bool'),
+    ]
+
+    def isinstance_hook(typ):
+        return {'Dt': {'datetime'}, 'TI': {'TimeInterval'}, 'GV.Coll': {'CollectionBase'}, 'Query': {'BaseShape'}}.get(typ)
+
+    def type_ctor(tr, recv, args):
+        if recv.typ != 'GV.Coll' or len(args) != 1 or args[0].typ != 'List GV.Coll.Shape':
+            raise Unsupported(f'type({recv.typ})({", ".join(a.typ for a in args)})')
+        v = Val(f'(GV.Coll.rewrap {recv.text}.tag {args[0].text})', 'GV.Coll')
+        v.raises = True
+        return v
+
+    def zulu(tr, args):
+        if args[-1].typ != 'Dt':
+            raise Unsupported(f'default_to_zulu applied to {args[-1].typ}')
+        return Val(args[-1].text, 'Dt')
+
+    abstract = {
+        ('GV.Coll.Shape', 'intersects', ('Query',)): ('xi {0}', 'Bool'),
+        ('GV.Coll.Shape', 'contains', ('Query',)): ('xc {0}', 'Bool'),
+        ('Query', 'contains', ('GV.Coll.Shape',)): ('qc {1}', 'Bool'),
+    }
+    py2lean.LEAN_TYPE.setdefault('Query', 'Unit')
+    return Unit('SrcColl', src, 'GV.Src.Coll', ['GeoVerif.Gen.SrcTime', 'GeoVerif.Model.Collection', 'GeoVerif.Model.PyPrelude'], insts,
+                {'GV.Coll': C, 'TI': 'TimeInterval'},
+                pins={'utils/functions.py::default_to_zulu': PINS['utils/functions.py::default_to_zulu']},
+                attr_types={('GV.Coll', 'geoshapes'): ('{}.shapes', 'List GV.Coll.Shape'),
+                            ('GV.Coll.Shape', 'dt'): ('{}.dt', 'Opt TI'), ('Query', 'dt'): ('qdt', 'Opt TI')},
+                intrinsics={'default_to_zulu': zulu},
+                hooks={'isinstance': isinstance_hook, 'type_ctor': type_ctor, 'always_truthy': ('TI', 'Dt')},
+                ctx_params=[('qdt', 'Option GV.TI'), ('xi', 'GV.Coll.Shape → Bool'), ('xc', 'GV.Coll.Shape → Bool'),
+                            ('qc', 'GV.Coll.Shape → Bool')],
+                externals=_time_externals(), abstract=abstract)
+
+
+UNITS = {'SrcTime': time_unit, 'SrcBase': base_unit, 'SrcMulti': multi_unit, 'SrcColl': coll_unit}
 
 
 def render(name):
